@@ -181,6 +181,10 @@ def length_sweep(quick):
         out.append([x for _ in range(d) for x in (ev("arrS", "arrS", (), 2, "any"), ev("int", "int8", canon(1)))] + [ev("bool", "bool", [1])] + [ev("arrE", "arrE")] * d)
         out.append([x for j in range(d) for x in (ev("objS", "objS", (), 2, "any"), ev("key", "key", list(b"a")), ev("int", "int8", canon(j % 100)), ev("key", "key", list(b"b")))] + [ev("nil", "nil")] + [ev("objE", "objE")] * d)
         out.append([ev("arrS", "arrS", (), -1, "any") if j % 2 else ev("arrS", "arrS", (), 1, "any") for j in range(d)] + [ev("str", "str", [120])] + [ev("arrE", "arrE")] * d)
+        # ... and with a sibling AFTER the deep child at every level (the flags of the outer levels are needed again on the way out)
+        out.append([ev("arrS", "arrS", (), -1, "any")] * d + [x for _ in range(d) for x in (ev("arrE", "arrE"), ev("int", "int8", canon(7)))][:-1])
+        out.append([x for j in range(d) for x in (ev("objS", "objS", (), -1, "any"), ev("key", "key", list(b"a")))] + [ev("nil", "nil")] +
+                   [x for j in range(d) for x in (ev("key", "key", list(b"b")), ev("int", "int8", canon(j % 100)), ev("objE", "objE"))])
     return out
 
 
